@@ -345,6 +345,9 @@ def run_case(case):
             sc = dab[:, :, :, :, None, None, None, None] * dcd[None, None, None, None, :, :, :, :]
             info = {"A_given": c04.amp(shells[:2], shells[2:]), "A_swapped": c04.amp(shells[2:], shells[:2]), "ls": cm.ls_of(shells),
                     "A_total": c04.amp_total(shells)[0]}
+            pol0 = c04.policy_block(shells, sh)
+            if pol0 is not None:
+                pol0 = normed4(np.array(pol0), (0, 1, 2, 3))
             for order, nm in (((1, 0, 2, 3), "(ba|cd)"), ((0, 1, 3, 2), "(ab|dc)"), ((2, 3, 0, 1), "(cd|ab)"), ((3, 2, 1, 0), "(dc|ba)"),
                               ((1, 0, 3, 2), "(ba|dc)"), ((2, 3, 1, 0), "(cd|ba)"), ((3, 2, 0, 1), "(dc|ab)")):
                 o = cm.call(ElectronRepulsionIntegral.construct_array_contraction, *[sh[k] for k in order])
@@ -357,6 +360,16 @@ def run_case(case):
                 inv = [order.index(k) for k in range(4)]
                 axes = [x for k in inv for x in (2 * k, 2 * k + 1)]
                 O = np.transpose(O, axes)
+                info.pop("policy_err", None)
+                if pol0 is not None and not float((np.abs(O - R) / (sc + 1e-300)).max()) <= 2e-6:
+                    # how far apart the library's own kernel puts the two orientations when each is evaluated in the
+                    # orientation the documented policy selects (for the classifier, see c04.policy_block)
+                    pk = c04.policy_block([shells[k] for k in order], [sh[k] for k in order])
+                    if pk is not None:
+                        pk = np.transpose(normed4(np.array(pk), order), axes)
+                        with np.errstate(all="ignore"):
+                            pe = np.abs(pk - pol0) / (sc + 1e-300)
+                        info["policy_err"] = float(np.nanmax(np.where(sc < c04.FAR * float(sc.max()), 0.0, pe))) if np.all(np.isfinite(pk)) else 1e300
                 far_split(np.abs(O - R), sc, 2e-6, "ERI kernel orientation %s vs (ab|cd) for %s" % (nm, "".join("spdf"[l] for l in info["ls"])), "orient_eri", viols, errs, info)
         nontrivial = sum(s["l"] for s in shells) >= 1
     return {"evals": evals, "nontrivial": bool(nontrivial), "classes": case["classes"], "errs": errs, "violations": viols}
@@ -373,7 +386,10 @@ def classify(case, v):
         # difference of two evaluations may be twice the single-evaluation envelope accepted for C04
         A = v["A_total"]
         if A >= c04.A0 and v.get("err", 1.0) <= 2 * min(1e-2, 1e4 * c04.EPS * float(np.exp(min(A, 60.0)))):
-            return "C11/recursion-amplification"
+            # ... and the two orientations are not much further apart than the library's own kernel puts them when both
+            # are evaluated as the documented orientation policy prescribes (they then differ only through ties)
+            if v.get("policy_err") is None or v.get("err", 1.0) <= 10.0 * v["policy_err"]:
+                return "C11/recursion-amplification"
     return None
 
 
